@@ -715,6 +715,59 @@ func TestC05Blocks(t *testing.T) {
 			}
 		}
 	}
+	// keys that hold nulls: every null key is a key of its own unless Null(true) is given (each such row exactly once)
+	for _, n := range sizes {
+		for _, period := range []int{3, 5000} {
+			ps, pf := make([]*string, n), make([]float64, n)
+			nullS, nullF := 0, 0
+			seenS, seenF := map[int]bool{}, map[int]bool{}
+			for i := range ps {
+				if i%7 == 3 {
+					nullS++
+				} else {
+					ps[i] = hx.Sp("k" + strconv.Itoa(i%period))
+					seenS[i%period] = true
+				}
+				if i%5 == 1 {
+					pf[i] = math.NaN()
+					nullF++
+				} else {
+					pf[i] = float64(i%period) / 4
+					seenF[i%period] = true
+				}
+			}
+			base := qframe.New(map[string]interface{}{"s": ps, "f": pf, "id": hx.Iota(n)})
+			for ai, qf := range []qframe.QFrame{base, base.Sort(qframe.Order{Column: "id", Reverse: true})} {
+				for _, c := range []struct {
+					key             string
+					distinct, nulls int
+				}{{"s", len(seenS), nullS}, {"f", len(seenF), nullF}} {
+					for _, groupNull := range []bool{false, true} {
+						want := c.distinct + c.nulls
+						if groupNull {
+							want = c.distinct + 1
+						}
+						d := qf.Distinct(groupby.Columns(c.key), groupby.Null(groupNull))
+						if d.Err != nil || d.Len() != want {
+							t.Fatalf("Distinct(%s, Null(%v)) of %d rows with %d different keys and %d null keys (arrangement %d): %d rows, want %d, Err %v", c.key, groupNull, n, c.distinct, c.nulls, ai, d.Len(), want, d.Err)
+						}
+						ids := d.MustIntView("id").Slice()
+						sort.Ints(ids)
+						for i := 1; i < len(ids); i++ {
+							if ids[i] == ids[i-1] {
+								t.Fatalf("Distinct(%s, Null(%v)) of %d rows (arrangement %d) returns the row with id %d twice", c.key, groupNull, n, ai, ids[i])
+							}
+						}
+						g, err := qf.GroupBy(groupby.Columns(c.key), groupby.Null(groupNull)).QFrames()
+						if err != nil || len(g) != want {
+							t.Fatalf("GroupBy(%s, Null(%v)).QFrames() of %d rows (arrangement %d): %d groups, want %d, err %v", c.key, groupNull, n, ai, len(g), want, err)
+						}
+						runs++
+					}
+				}
+			}
+		}
+	}
 	evC05.CaseHash(true, 0x424c4f43, func() string {
 		return fmt.Sprintf("block sizes: Distinct and GroupBy on %v rows with keys of period 1 … n, three arrangements (%d runs)", sizes, runs)
 	}, "block-sizes")
